@@ -707,12 +707,11 @@ def run(rep, tier, replay):
     if quick:
         nseg, seg_budget, total = workers, 60.0, None
     else:
-        nseg, seg_budget, total = 60, 400.0, 6 * 1000.0
+        nseg, seg_budget, total = 24, 400.0, 6 * 600.0
     defer = {e["defer_location"] for e in rep.known if e.get("property") == "C14" and e.get("defer_location")}
     segs, terms, covered = plan(g, terminal, nseg, seg_budget, rng, total, defer)
-    if quick:
-        rng.shuffle(terms)
-        terms = terms[:6]
+    rng.shuffle(terms)
+    terms = terms[:6 if quick else 36]
     # every command class of the specification must be exercised: add a shortest script for any class the
     # walks of this run do not contain
     planned = {e["cmd"]["label"] for p in segs + terms for e in p}
@@ -731,7 +730,7 @@ def run(rep, tier, replay):
               [(f"t{i}", script_of(p)) for i, p in enumerate(terms)]
     vlib.log(f"[plan] {len(g.out)} nodes {len(g.e)} edges; {len(segs)} walks ({sum(map(len, segs))} commands, "
              f"{len(covered)} distinct edges) + {len(terms)} terminal scripts; {time.time() - t0:.0f}s so far")
-    res = run_jobs(exe, job_base(puppet, lines), scripts, workers, 100 if quick else 1400)
+    res = run_jobs(exe, job_base(puppet, lines), scripts, workers, 100 if quick else 1000)
     bgt.join()
     if isinstance(bg["r"], Exception):
         raise bg["r"]
